@@ -116,27 +116,31 @@ def walkForward (starts : List Nat) (query : Nat) : Nat → Nat → Nat → Opti
       else some (lineIdx, lineStart)
     | none => some (lineIdx, lineStart)
 
+/-- The tail of `to_line_column` (cold / backward / walk-exceeded path): `predecessor(query)`,
+store the cache entry, answer. -/
+def coldLookup (ix : LineIndex) (cache : Cache) (offset query : Nat) : Option (Nat × Nat) × Cache :=
+  match efPredecessor ix.starts query with
+  | none => (none, cache)                                    -- .expect("LineIndex always holds line 1")
+  | some (idx, start) =>
+    (mkLineCol idx offset start, some { offset := query, lineIdx := toU32 idx, lineStart := start })
+
 /-- `LineIndex::to_line_column` with `FORWARD_WALK_CAP = cap`.  Returns the answer (`none` =
 panic) and the new cache. -/
 def toLineColumn (cap : Nat) (ix : LineIndex) (cache : Cache) (offset : Nat) :
     Option (Nat × Nat) × Cache :=
-  let query := toU32 (min offset U32_MAX)
-  let cold : Unit → Option (Nat × Nat) × Cache := fun _ =>
-    match efPredecessor ix.starts query with
-    | none => (none, cache)                                    -- .expect("LineIndex always holds line 1")
-    | some (idx, start) =>
-      (mkLineCol idx offset start, some { offset := query, lineIdx := toU32 idx, lineStart := start })
+  let query := toU32 (min offset U32_MAX)                      -- offset.min(u32::MAX as usize) as u32
   match cache with
-  | none => cold ()
+  | none => coldLookup ix cache offset query
   | some entry =>
-    if query = entry.offset then
+    if query = entry.offset then                               -- exact repeat
       (mkLineCol entry.lineIdx offset entry.lineStart, cache)
     else if query > entry.offset then
       match walkForward ix.starts query cap entry.lineIdx entry.lineStart with
       | some (lineIdx, lineStart) =>
-        (mkLineCol lineIdx offset lineStart, some { offset := query, lineIdx := lineIdx, lineStart := lineStart })
-      | none => cold ()
-    else cold ()
+        (mkLineCol lineIdx offset lineStart,
+         some { offset := query, lineIdx := lineIdx, lineStart := lineStart })
+      | none => coldLookup ix cache offset query               -- walk exceeded the cap
+    else coldLookup ix cache offset query                      -- backward query
 
 /-- `LineIndex::line_start` -/
 def lineStart (ix : LineIndex) (line : Nat) : Option Nat :=
@@ -176,17 +180,19 @@ deriving Repr, DecidableEq
 /-- One public call on an index whose cache cell holds `cache`. -/
 def step (cap : Nat) (ix : LineIndex) (cache : Cache) : Query → Answer × Cache
   | .lineCol offset =>
-    match toLineColumn cap ix cache offset with
-    | (some (l, c), cache') => (.lc l c, cache')
-    | (none, cache') => (.panic, cache')
+    let r := toLineColumn cap ix cache offset
+    (match r.1 with
+     | some (l, c) => .lc l c
+     | none => .panic, r.2)
   | .toOffset line column => (.opt (toOffset ix line column), cache)
   | .lineStart line => (.opt (lineStart ix line), cache)
   | .lineCount => (.num (lineCount ix), cache)
   | .textLen => (.num ix.textLen, cache)
   | .roundTrip offset =>
-    match toLineColumn cap ix cache offset with
-    | (some (l, c), cache') => (.rt l c (toOffset ix l c), cache')
-    | (none, cache') => (.panic, cache')
+    let r := toLineColumn cap ix cache offset
+    (match r.1 with
+     | some (l, c) => .rt l c (toOffset ix l c)
+     | none => .panic, r.2)
 
 /-- Answers of a whole query history, starting from cache state `cache`. -/
 def run (cap : Nat) (ix : LineIndex) : Cache → List Query → List Answer
